@@ -215,22 +215,46 @@ def prove(ctx, prop_mods):
 
 # ---------------------------------------------------------------- running model and implementation
 
-def _run_once(exe, mode, lines, timeout):
-    """one process over `lines`; returns (outputs so far, status) with status in ok / crash / hang"""
+def _run_once(exe, mode, lines, idle):
+    """one process over `lines`; returns (outputs so far, status, stderr tail, rc) with status ok / crash / hang.
+    A hang is declared when NO new output line arrives for `idle` seconds (the harness flushes per line)."""
+    import select, threading
     p = subprocess.Popen([exe] + mode, stdin=subprocess.PIPE, stdout=subprocess.PIPE, stderr=subprocess.PIPE, env=ENV)
-    try:
-        so, se = p.communicate(("\n".join(lines) + "\n").encode("utf-8"), timeout=timeout)
-        status = "ok" if p.returncode == 0 else "crash"
-    except subprocess.TimeoutExpired:
-        p.kill()
-        so, se = p.communicate()
-        status = "hang"
-    got = so.decode("utf-8", "replace").split("\n")
+    data = ("\n".join(lines) + "\n").encode("utf-8")
+
+    def feed():
+        try:
+            p.stdin.write(data)
+            p.stdin.close()
+        except (BrokenPipeError, OSError):
+            pass
+    errbuf = []
+    threading.Thread(target=feed, daemon=True).start()
+    threading.Thread(target=lambda: errbuf.append(p.stderr.read()), daemon=True).start()
+    buf, status = bytearray(), "ok"
+    fd = p.stdout.fileno()
+    while True:
+        r, _, _ = select.select([fd], [], [], idle)
+        if not r:
+            status = "hang"
+            p.kill()
+            break
+        chunk = os.read(fd, 1 << 16)
+        if not chunk:
+            break
+        buf += chunk
+    p.wait()
+    if status == "ok" and p.returncode != 0:
+        status = "crash"
+    got = buf.decode("utf-8", "replace").split("\n")
     if got and got[-1] == "":
         got.pop()
+    elif status != "ok" and got:
+        got.pop()                      # an incomplete last line
     if status == "ok" and len(got) != len(lines):
         status = "crash"
-    return got, status, se.decode("utf-8", "replace").strip()[-200:], p.returncode
+    err = (errbuf[0] if errbuf else b"").decode("utf-8", "replace").strip()[-200:]
+    return got, status, err, p.returncode
 
 
 def _run_chunk(args):
@@ -241,7 +265,7 @@ def _run_chunk(args):
     out, start = [], 0
     while start < len(lines):
         rest = lines[start:]
-        got, status, err, rc = _run_once(exe, mode, rest, 120 + 0.05 * len(rest))
+        got, status, err, rc = _run_once(exe, mode, rest, 15 if exe == RUNNER else 120)
         if status == "ok":
             out += got
             break
@@ -250,13 +274,17 @@ def _run_chunk(args):
         k = start + len(got)                 # first line without an answer
         if k >= len(lines):
             break
-        g1, st1, err1, rc1 = _run_once(exe, mode, [lines[k]], 20)
-        if st1 == "ok":
-            out.append(g1[0])
-        elif st1 == "hang":
-            out.append("HANG no answer within 20 s (process killed)")
+        if status == "hang" and exe == RUNNER:
+            # the harness answers line by line: the line after the last answer is the one that does not return
+            out.append("HANG no answer within 15 s (process killed)")
         else:
-            out.append(f"CRASH rc={rc1} {err1}")
+            g1, st1, err1, rc1 = _run_once(exe, mode, [lines[k]], 20 if exe == RUNNER else 120)
+            if st1 == "ok":
+                out.append(g1[0])
+            elif st1 == "hang":
+                out.append("HANG no answer (process killed)")
+            else:
+                out.append(f"CRASH rc={rc1} {err1}")
         start = k + 1
     return out
 
